@@ -4,6 +4,8 @@ HEADER = '''(* C04  Table initialisation accepts exactly the well-formed tables.
    The post-state is proved for plain tables (all areas memory-backed and default-loading); for tables with callback-backed, read-only
    or skip-defaults areas it is correspondence-tested only. *)'''
 IMPORTS = '''From Ufw Require Import Base.Bits Model.RegTable Proof.RegLemmas Proof.RegInitLemmas Proof.RegInvariant Proof.RegMemory Proof.RegBlockInv Proof.RegInitInv Proof.RegInitZero Proof.RegLink.
+From Coq Require Import ZArith.
+From Ufw Require Import Base.Cexpr Gen.RegLeafGen Proof.RegLeafT.
 Local Open Scope N_scope.'''
 ITEMS = [
  ('C04_success_iff', 'init_success_iff', 'initialisation succeeds exactly when there is an area, the areas and the entries are each ordered and disjoint (every element starts at or behind the end of its predecessor), and the defaults load'),
@@ -18,6 +20,9 @@ ITEMS = [
  ('C04_post_state_other_words_zero', 'init_other_words_zero', 'post-state, second half: every word of the table memory that no register covers is zero after a successful initialisation'),
  ('C04_post_state_area_fields', 'init_area_fields', 'post-state, third part: the first / last / count fields of every area describe exactly the registers whose address lies in the area, a contiguous run of the register list'),
  ('C04_link_fields_spec', 'link_area_spec', 'the same for the linking step alone, any ordered register list and any area'),
+ ('C04_T_address_in_area', 'C_ra_addr_is_part_of', 'TRANSLATOR TIE (Gen/RegLeafGen.v is regenerated from src/registers/core.c on every check): the 32-bit membership test of the C code is the membership predicate of the model for every area inside the 32-bit address space, including areas that reach its last address'),
+ ('C04_T_register_fits_area', 'C_ra_reg_fits_into', '... and its test that a register located in an area lies wholly inside it is the comparison of the (unrepresentable) end addresses that the model makes'),
+ ('C04_T_end_address_form_refuted', 'old_end_address_form_refuted', 'the pre-repair form of the membership test (end address computed in 32 bits) disagrees with the model on the area 0xfffffff0+16, where the repaired one agrees: defect 36'),
  ('C04_failure_uninitialised', 'init_failure_uninit', 'a failed initialisation leaves the table uninitialised'),
  ('C04_flag_iff_success', 'init_flag_iff_success', 'the initialised flag is set exactly by a successful initialisation'),
  ('C04_uninitialised_operations', 'uninit_everything', 'on an uninitialised table every operation reports UNINITIALISED and changes nothing'),
